@@ -20,12 +20,20 @@
   * `shift_fline_new`, `shift_fline_request`, `shift_fline_reason`: ParseFLine from a new object (request line or
     status line, valid or not) and from an object suspended in the method / URI / version / line end / reason phrase:
     same verdict, status and method number; offset and the fields of the line moved by `k` (`shReq` / `shRpl`).
+  * `shift_nameaddr`, `shift_nameaddr_new`, `shift_nameaddr_exact`, `shift_nameaddr_reported`, `shift_nameaddr_bytes`,
+    `shift_nameaddr_resume`: ParseNameAddrPVal (= ParseFromVal / ParseOneContact / To / PAI values; all 33 states, every
+    header kind; new, suspended and finished objects): same verdict, offset + k, URI and value moved by k, name / tag /
+    parameters moved unless absent, numbers / flags / kind unchanged, the moved fields denote the same bytes; the "offset 0
+    = parameter list not started" sentinel never misfires (positions are ≥ 1 once the value has started). After an ERROR
+    verdict the internal restart offset `soffs` (never reported) is stale and is the only component not moved
+    (`shResNa`; a `decide` example in Proofs/ShiftNA.lean shows the plain form is false there).
   NOT yet proved (decided by the shift oracle on generated / hostile inputs at random `k` with random junk, and by the
-  correspondence): ParseNameAddrPVal and the value lists, ParseTokenParam / URI lists, ParseHdrLine,
+  correspondence): the contact / identity value lists, ParseTokenParam / URI lists, ParseHdrLine,
   ParseHeaders, ParseSIPMsg, and relocation of parsed URIs (C18 covers AdjustOffs).
 -/
 import Sipsp.Proofs.Shift
 import Sipsp.Proofs.ShiftFLine
+import Sipsp.Proofs.ShiftNA
 
 namespace Sipsp.C11
 open Sipsp
@@ -116,6 +124,31 @@ theorem shift_fline_reason (pre t : Buf) (o : Nat) (pl : PFLine) (hst : pl.state
     (hS : FlSafe t o pl) (hfit : pre.size + t.size ≤ 65535) :
     parseFLine (pre ++ t) (pre.size + o) (shRpl pre.size pl) = shRes pre.size (shRpl pre.size) (parseFLine t o pl) :=
   parseFLine_shift_rpl pre t o pl hst hS hfit
+
+/-- **ParseNameAddrPVal is position independent** (every header kind, any legitimate object) -/
+theorem shift_nameaddr (h : Nat) (pre t : Buf) (o : Nat) (pf : PFromBody) (hfit : pre.size + t.size ≤ 65535)
+    (hE : NaShiftEntry t o pf) :
+    parseNameAddrPVal h (pre ++ t) (pre.size + o) (shNa pre.size pf) =
+      shResNa pre.size pf (parseNameAddrPVal h t o pf) := parseNameAddrPVal_shift h pre t o pf hfit hE
+
+theorem shift_nameaddr_new (h : Nat) (pre t : Buf) (o : Nat) (ho : o ≤ t.size) (hfit : pre.size + t.size ≤ 65535) :
+    parseNameAddrPVal h (pre ++ t) (pre.size + o) {} = shResNa pre.size {} (parseNameAddrPVal h t o {}) :=
+  parseNameAddrPVal_shift_new h pre t o ho hfit
+
+/-- the exact form (whole object translated) when the verdict is OK / MoreValues / MoreBytes -/
+theorem shift_nameaddr_exact (h : Nat) (pre t : Buf) (o : Nat) (pf : PFromBody) (hfit : pre.size + t.size ≤ 65535)
+    (hE : NaShiftEntry t o pf) (hw : naWrote (parseNameAddrPVal h t o pf).2.1 = true) :
+    parseNameAddrPVal h (pre ++ t) (pre.size + o) (shNa pre.size pf) =
+      shRes pre.size (shNa pre.size) (parseNameAddrPVal h t o pf) := parseNameAddrPVal_shift_wrote h pre t o pf hfit hE hw
+
+/-- what a caller sees after a complete value from a new object -/
+theorem shift_nameaddr_reported : type_of% @parseNameAddrPVal_shift_reported := @parseNameAddrPVal_shift_reported
+
+/-- … and the moved fields denote the same bytes -/
+theorem shift_nameaddr_bytes : type_of% @parseNameAddrPVal_shift_bytes := @parseNameAddrPVal_shift_bytes
+
+/-- a suspended parse resumed after more bytes is position independent too -/
+theorem shift_nameaddr_resume : type_of% @parseNameAddrPVal_shift_resume := @parseNameAddrPVal_shift_resume
 
 /-! ### non-vacuity (tests) -/
 example : parseCSeqVal ("xyz".toUTF8.data ++ "12 INVITE\r\nX".toUTF8.data) 3 {} =
